@@ -19,6 +19,7 @@ CHECK_DEADLOCK FALSE
 """
 
 NCPU = os.cpu_count() or 4
+MAX_PER_TRACE = 150
 
 
 def chunks(xs, n):
@@ -30,7 +31,8 @@ def run_scenarios_parallel(binary, scenarios, events, wd, par=None, timeout=1800
     """Run scenarios in `par` harness processes (rapid's flags are process-global, so one
     process runs its scenarios sequentially).  Returns list of trace paths."""
     par = par or min(NCPU, max(1, len(scenarios) // 4))
-    parts = chunks(scenarios, par)
+    nparts = max(par, (len(scenarios) + MAX_PER_TRACE - 1) // MAX_PER_TRACE)   # bounded trace files: TLC holds a trace in memory
+    parts = chunks(scenarios, nparts)
     paths = []
 
     def one(i):
@@ -38,7 +40,7 @@ def run_scenarios_parallel(binary, scenarios, events, wd, par=None, timeout=1800
         n, p = core.run_harness(binary, parts[i], out, events, timeout=timeout, extra=extra, env=env)
         return out, n
 
-    with cf.ThreadPoolExecutor(max_workers=len(parts)) as ex:
+    with cf.ThreadPoolExecutor(max_workers=min(len(parts), NCPU)) as ex:
         for out, n in ex.map(one, range(len(parts))):
             paths.append(out)
     return paths
